@@ -11,7 +11,7 @@ LEVEL = "exploration"
 TECHNIQUE = "property-based testing (Hypothesis) over badly scaled initial values; independent NumPy implementation of the two-stage heuristic (Hairer-Norsett-Wanner II.4); end-to-end start of an adaptive solve"
 LEVEL_TEXT = (
     "Generated initial values with components in {0, +-1e-300, +-1e300} and 10^U(-12,12) mixed within one vector (flat and pytree states), "
-    "affine vector fields with f(u0) zero / non-zero / huge, tolerances 1e-12..1, contraction rates 1..12. Both helpers must return a "
+    "affine vector fields with f(u0) zero / non-zero / huge and explicit time dependence (none, c t, c t^2, c sin(w t) with |c| up to 8e6), tolerances 1e-12..1, contraction rates 1..12. Both helpers must return a "
     "finite, strictly positive float; the tolerance-aware helper must equal an independently written two-stage procedure (Euler probe, both "
     "guards, exponent 1/(rate+1), final minimum; overflow-safe norms) to 1e-9; for moderate magnitudes the returned step must let "
     "solve_adaptive_terminal_values start and finish with finite output."
@@ -25,7 +25,8 @@ RULE = (
     "magnitude outside [1e-6, 1e6]; distinct by JSON hash"
 )
 ASSUMPTIONS = ["x64"]
-REQUIRED_LABELS = ["u0:has_zero", "u0:tiny", "u0:huge", "f0:zero", "f0:nonzero", "solve_started", "pytree"]
+REQUIRED_LABELS = ["u0:has_zero", "u0:tiny", "u0:huge", "f0:zero", "f0:nonzero", "solve_started", "pytree", "forcing:none", "forcing:linear", "forcing:sin",
+                   "forcing:square", "heuristic:compared"]
 
 MAGS = ["zero", "tiny", "huge", "moderate", "moderate", "moderate"]
 
@@ -42,7 +43,10 @@ def _case(draw):
                 field=draw(st.sampled_from(["zero", "decay", "decay", "affine", "const", "huge_const"])),
                 A=draw(gen.mat(d, d, gen.quarter(-4, 4))), b=draw(gen.vec(d, gen.quarter(-8, 8))),
                 log_atol=draw(gen.exponent(-12.0, 0.0)), log_rtol=draw(gen.exponent(-12.0, 0.0)),
-                rate=draw(st.integers(1, 12)), pytree=draw(st.booleans()), t0=draw(gen.quarter(-4, 4)))
+                rate=draw(st.integers(1, 12)), pytree=draw(st.booleans()), t0=draw(gen.quarter(-4, 4)),
+                # explicit time dependence: f(y, t) = A y + b + c * g(t), g in {t, sin(w t), t^2}
+                forcing=draw(st.sampled_from(["none", "none", "linear", "sin", "square"])),
+                c=draw(gen.vec(d, gen.quarter(-8, 8))), log_cmag=draw(gen.exponent(-3.0, 6.0)), omega=draw(gen.quarter(1, 64)))
 
 
 def strategy(ctx):
@@ -83,14 +87,35 @@ def _safe_norm(v):
     return m * np.sqrt(np.sum((v / m) ** 2))
 
 
-def _reference_adaptive(A, b, y0, t0, rate, rtol, atol):
-    f = lambda y: A @ y + b  # noqa: E731
-    f0 = f(y0)
+def _forcing(case, xp=np):
+    """g(t) of the explicit time dependence and its (vector) coefficient."""
+    kind = case.get("forcing", "none")
+    if kind == "none":
+        return None, None
+    c = np.asarray(case["c"], float) * 10.0 ** case["log_cmag"]
+    w = float(case["omega"])
+    g = {"linear": lambda t: t, "sin": lambda t: xp.sin(w * t), "square": lambda t: t * t}[kind]
+    return c, g
+
+
+def _reference_adaptive(A, b, y0, t0, rate, rtol, atol, forcing=(None, None), ulps=0.0):
+    """ulps != 0: rounding model - the second-stage field value is perturbed by that many units in the
+    last place (alternating signs), to measure how well-conditioned the difference f1 - f0 is."""
+    c, g = forcing
+    if c is None:
+        f = lambda y, t: A @ y + b  # noqa: E731
+    else:
+        f = lambda y, t: A @ y + b + c * g(t)  # noqa: E731
+    f0 = f(y0, t0)
     scale = atol + np.abs(y0) * rtol
     d0, d1 = _safe_norm(y0), _safe_norm(f0)
     h0 = 1e-6 if (d0 < 1e-5 or d1 < 1e-5) else 0.01 * d0 / d1
     y1 = y0 + h0 * f0
-    f1 = f(y1)
+    f1 = f(y1, t0 + h0)  # the second stage is an explicit Euler step: state AND time advance
+    if ulps:
+        signs = np.where(np.arange(len(y0)) % 2 == 0, 1.0, -1.0)
+        mag = np.abs(A) @ np.abs(y1) + np.abs(b) + (0.0 if c is None else np.abs(c) * max(abs(g(t0 + h0)), abs(g(t0))))
+        f1 = f1 + ulps * 2.2e-16 * signs * mag
     d2 = _safe_norm((f1 - f0) / scale) / h0
     if d1 <= 1e-15 and d2 <= 1e-15:
         h1 = max(1e-6, h0 * 1e-3)
@@ -118,9 +143,13 @@ def check_case(case):
         res.label("u0:tiny")
     if "huge" in kinds:
         res.label("u0:huge")
+    cforce, g_np = _forcing(case, np)
+    _, g_j = _forcing(case, jnp)
     with np.errstate(all="ignore"):
-        f0 = A @ y0 + b
+        f0 = A @ y0 + b + (0.0 if cforce is None else cforce * g_np(float(case["t0"])))
     res.label("f0:zero" if not np.any(f0) else "f0:nonzero")
+    res.label("forcing:" + case.get("forcing", "none"))
+    cj = None if cforce is None else jnp.asarray(cforce)
     res.nontrivial = "zero" in kinds or any(not (1e-6 <= abs(v) <= 1e6) for v in y0)
     Aj, bj = jnp.asarray(A), jnp.asarray(b)
 
@@ -136,14 +165,14 @@ def check_case(case):
 
         @pd.ode
         def vf(y, /, *, t):
-            return pack(Aj @ unpack(y) + bj)
+            return pack(Aj @ unpack(y) + bj + (0.0 if cj is None else cj * g_j(t)))
 
         u0 = pack(jnp.asarray(y0))
     else:
 
         @pd.ode
         def vf(y, /, *, t):
-            return Aj @ y + bj
+            return Aj @ y + bj + (0.0 if cj is None else cj * g_j(t))
 
         u0 = jnp.asarray(y0)
 
@@ -154,7 +183,7 @@ def check_case(case):
 
     # (a) finite and strictly positive
     with np.errstate(all="ignore"):
-        ref, (rd0, rd1, rd2, rh0) = _reference_adaptive(A, b, y0, case["t0"], case["rate"], rtol, atol)
+        ref, (rd0, rd1, rd2, rh0) = _reference_adaptive(A, b, y0, float(case["t0"]), case["rate"], rtol, atol, (cforce, g_np))
     # an intermediate of the documented formula leaves float64's normal range (XLA flushes subnormals)
     big = max(rd1, rd2) if np.isfinite(rd1) and np.isfinite(rd2) else np.inf
     out_of_range = (not np.isfinite(big)) or big > 0.01 / 2.3e-308 or (0 < rh0 < 2.3e-308) or not (np.isfinite(ref) and ref > 0)
@@ -176,8 +205,23 @@ def check_case(case):
     # (b) the tolerance-aware helper reproduces the two-stage heuristic
     if np.isfinite(ref) and ref > 0 and np.isfinite(h_adapt) and not out_of_range:
         e = abs(h_adapt - ref) / ref
-        res.metric("heuristic/tol", e / 1e-9)
-        if not e <= 1e-9:
+        # attainable accuracy: the heuristic differences two field values; where that difference is
+        # ill-conditioned (tiny probe step), rounding in f decides the result and nothing can be compared
+        tol = 1e-9
+        with np.errstate(all="ignore"):
+            for u in (4.0, -4.0):
+                rp, _ = _reference_adaptive(A, b, y0, float(case["t0"]), case["rate"], rtol, atol, (cforce, g_np), ulps=u)
+                if np.isfinite(rp):
+                    tol = max(tol, 50.0 * abs(rp - ref) / ref)
+                else:
+                    tol = np.inf
+        if tol > 1e-4:
+            res.label("heuristic:illconditioned_difference")
+            tol = np.inf
+        else:
+            res.label("heuristic:compared")
+            res.metric("heuristic/tol", e / tol)
+        if not e <= tol:
             res.violate("dt0_adaptive:heuristic" + (":gross" if e > 1e-3 else ""), f"dt0_adaptive={h_adapt!r}, two-stage heuristic gives {ref!r}")
     # simple helper: documented ratio scale*|y0|/(|f0|+nugget) whenever that is positive
     if n0 > 0 and np.isfinite(n0) and np.isfinite(n1) and np.isfinite(h_simple):
@@ -197,7 +241,7 @@ def check_case(case):
             if not (np.isfinite(h) and h > 0):
                 continue
             res.label("solve_started")
-            fin = _try_solve(A, b, y0, case["t0"], h, max(atol, 1e-6), max(rtol, 1e-6))
+            fin = _try_solve(A, b, y0, case["t0"], h, max(atol, 1e-6), max(rtol, 1e-6), case)
             if fin is False:
                 res.violate(f"{name}:solve_not_finite", f"adaptive solve started with {name}={h!r} returned non-finite output (u0={y0.tolist()})")
     return res
@@ -206,7 +250,7 @@ def check_case(case):
 _SOLVE = {}
 
 
-def _try_solve(A, b, y0, t0, h, atol, rtol):
+def _try_solve(A, b, y0, t0, h, atol, rtol, case):
     import jax
     import jax.numpy as jnp
 
@@ -214,12 +258,18 @@ def _try_solve(A, b, y0, t0, h, atol, rtol):
     from probdiffeq import probdiffeq as pd
 
     d = len(y0)
-    if d not in _SOLVE:
+    kind = case.get("forcing", "none")
+    cforce, _ = _forcing(case, np)
+    cvec = np.zeros(d) if cforce is None else cforce
+    omega = float(case.get("omega", 1.0))
+    if (d, kind) not in _SOLVE:
 
-        def run(A, b, y0, t0, h, atol, rtol):
+        def run(A, b, y0, t0, h, atol, rtol, c, w):
+            g = {"none": lambda t: 0.0 * t, "linear": lambda t: t, "sin": lambda t: jnp.sin(w * t), "square": lambda t: t * t}[kind]
+
             @pd.ode
             def vf(y, /, *, t):
-                return A @ y + b
+                return A @ y + b + c * g(t)
 
             tcoeffs, _ = pd.jetexpand_ode_padded_scan(num=2)(vf, (y0,), t=t0)
             ssm = pd.state_space_model_isotropic()
@@ -231,9 +281,9 @@ def _try_solve(A, b, y0, t0, h, atol, rtol):
             sol = solve(prior, t0=t0, t1=t0 + 0.05, atol=atol, rtol=rtol, dt0=h)
             return sol.u.mean[0], sol.num_steps
 
-        _SOLVE[d] = jax.jit(run)
+        _SOLVE[(d, kind)] = jax.jit(run)
     with common.lib_call("solve_adaptive_terminal_values"):
-        u, n = _SOLVE[d](jnp.asarray(A), jnp.asarray(b), jnp.asarray(y0), float(t0), float(h), float(atol), float(rtol))
+        u, n = _SOLVE[(d, kind)](jnp.asarray(A), jnp.asarray(b), jnp.asarray(y0), float(t0), float(h), float(atol), float(rtol), jnp.asarray(cvec), omega)
     return bool(np.all(np.isfinite(np.asarray(u))))
 
 
